@@ -216,7 +216,8 @@ class Statement(object):
             min_size += constant
 
         range_count = range(this_index, rel_index)
-        if rel_index < this_index:
+        if rel_index <= this_index:
+            # A reference to the statement's own label is a backward reference too
             positive_range = False
             range_count = range(rel_index, this_index)
 
